@@ -80,6 +80,16 @@ static int sc_schema(void) { ARM(); carquet_error_t err = CARQUET_ERROR_INIT; ca
         carquet_schema_free(s); }
     DISARM(); return rc; }
 
+/* the same builder history, but the application treats a failed add_column as "that column is not in the schema" and carries on with the
+ * handle (which the error left valid): the schema must hold exactly the columns whose call returned OK, in order, with their levels */
+static int sc_schema_on(void) { ARM(); carquet_error_t err = CARQUET_ERROR_INIT; carquet_schema_t* s = carquet_schema_create(&err); int rc = 0;
+    if (s) { int added = 0; int which[160]; for (int i = 0; i < 150; i++) { char nm[64]; snprintf(nm, sizeof nm, "column_number_%d_with_some_length", i); if (carquet_schema_add_column(s, nm, (carquet_physical_type_t)(i % 8 == 3 ? 1 : i % 8), NULL, (carquet_field_repetition_t)(i % 2), i % 8 == 7 ? 5 : 0) == CARQUET_OK) which[added++] = i; }
+        DISARM(); if (carquet_schema_num_columns(s) != added) { snprintf(msg, sizeof msg, "schema reports %d columns after %d successful add_column calls (application went on after a failed one)", carquet_schema_num_columns(s), added); rc = 1; }
+        for (int k = 0; k < added && !rc; k++) { int i = which[k]; const carquet_schema_node_t* n = carquet_schema_get_element(s, k + 1); char nm[64]; snprintf(nm, sizeof nm, "column_number_%d_with_some_length", i);
+            if (!n || !carquet_schema_node_name(n) || strcmp(carquet_schema_node_name(n), nm) || (int)carquet_schema_node_physical_type(n) != (i % 8 == 3 ? 1 : i % 8) || carquet_schema_node_max_def_level(n) != i % 2 || carquet_schema_find_column(s, nm) != k) { snprintf(msg, sizeof msg, "column %d (slot %d) is not what was added, after going on past a failed add_column", i, k); rc = 1; } }
+        carquet_schema_free(s); }
+    DISARM(); return rc; }
+
 static int sc_write(int codec, int wide) { table_t* t = make_table(codec, wide); char path[600], ref[600]; snprintf(path, sizeof path, "%s/w_%d_%d_%ld.parquet", TMP, codec, wide, (long)getpid()); snprintf(ref, sizeof ref, "%s/ref_%d_%d.parquet", TMP, codec, wide);
     twrite_result_t res; vrng_t r; vrng_seed(&r, 7); unlink(path); ARM(); int created = tbl_write_path(&r, t, path, &res); DISARM(); int rc = 0;
     if (created && res.all_ok) { /* success reported: the file must read back to the intended table */ carquet_error_t err = CARQUET_ERROR_INIT; ropen_t o; if (!rd_open(&o, path, IO_FREAD, 1, 1, &err)) { snprintf(msg, sizeof msg, "every writer call returned OK but the file cannot be opened (%s); allocation #%ld failed", err.message, g_fail_at); rc = 1; }
@@ -117,6 +127,7 @@ static int sc_misc(void) { int rc = 0; ARM();
 
 static int run_scenario(const char* sc, const char* file, const char* tdmp) {
     if (!strcmp(sc, "schema")) return sc_schema();
+    if (!strcmp(sc, "schemaon")) return sc_schema_on();
     if (!strncmp(sc, "write", 5)) { int codec = atoi(sc + 5); return sc_write(T_CODECS[codec % 5], 0); }
     if (!strcmp(sc, "widewrite")) return sc_write(CARQUET_COMPRESSION_UNCOMPRESSED, 1);
     if (!strncmp(sc, "goon", 4)) { int codec = atoi(sc + 4); return sc_write_on(T_CODECS[codec % 5]); }
